@@ -176,6 +176,19 @@ theorem obsStep_notProm (s : St) (a : Act) (hns : ∀ p, a ≠ .start p) (hnp : 
     split at ho
     · cases ho
     · simp only [List.mem_singleton] at ho; subst ho; rfl
+  | prepare d b =>
+    simp only [obsStep] at ho
+    split at ho
+    · cases ho
+    · simp only [List.mem_cons] at ho
+      rcases ho with rfl | ho
+      · rfl
+      · obtain ⟨k', c, rfl⟩ := pcarsOf_mem _ _ _ _ o ho; rfl
+  | submit p c =>
+    simp only [obsStep] at ho
+    split at ho
+    · simp only [List.mem_singleton] at ho; subst ho; rfl
+    · cases ho
   | _ =>
     simp only [obsStep] at ho
     exact propOf_notProm _ _ o ho
